@@ -69,7 +69,7 @@ def build(ctx):
                 for k, chunk in enumerate(groups):
                     nm = chunk[0][0] if dynamic else str(k)
                     hs.append(P.Harness("%s_%s_%s_%s_%s_cxx%s" % (sch.ns, msg.name, lv.name, nm, mode, std), harness(u, g, chunk, N, 0, D), [u], unwind=G + 2,
-                                        cap=ctx.q(150, 900), backends=["minisat", "kissat"], extra_flags=["--no-standard-checks"],
+                                        cap=ctx.q(300, 900), backends=["minisat", "kissat"], extra_flags=["--no-standard-checks"],
                                         meta={"big_loops": ["ref_walk_%s.%d" % (msg.name, x) for x in range(16)]},
                                         desc="message %s.%s level %s: setter(s) %s write exactly the reference bytes at the reference position; all other bytes unchanged" % (sch.ns, msg.name, lv.name, [a[0] for a in chunk]),
                                         bounds={"N": N, "G": G, "D": D, "std": "c++" + std, "build": mode, "byte_order": "BE" if sch.be else "LE"}))
@@ -83,7 +83,7 @@ def build(ctx):
         lv = g.levels[0]
         for a in [x for x in arms_for(g, lv) if x[0] in ("dresize_db", "dset_db")] :
             hs.append(P.Harness("%s_odd_bigdata_%s_%s_cxx%s" % (sch.ns, a[0], mode, std), harness(u, g, [a], N, 0, 255), [u], unwind=4,
-                                cap=ctx.q(200, 900), backends=["minisat", "kissat"], extra_flags=["--no-standard-checks"],
+                                cap=ctx.q(300, 900), backends=["minisat", "kissat"], extra_flags=["--no-standard-checks"],
                                 meta={"big_loops": ["ref_walk_odd.%d" % x for x in range(16)]},
                                 desc="message %s.odd: %s on the data member that follows a <data> of ANY uint8 length 0..255 (incl. the type maximum)" % (sch.ns, a[0]),
                                 bounds={"N": N, "G": 1, "D": "0..255 (first data), rest limited by N", "std": "c++" + std, "build": mode}))
